@@ -361,8 +361,10 @@ def helper_closure(idx: Index, func: Func, depth: int = 1) -> List[Func]:
           continue
         parts = d.split('.')
         callee = None
-        if parts[0] == 'self' and len(parts) == 2 and cls is not None:
+        if parts[0] in ('self', 'cls') and len(parts) == 2 and cls is not None:
           callee = idx.lookup_method(cls.fq, parts[1])
+        elif len(parts) == 2 and cls is not None and parts[0] == cls.name:
+          callee = idx.lookup_method(cls.fq, parts[1])    # Html._escape_str(...)
         elif len(parts) == 1:
           r = idx.resolve_name_in_func(f, d, call)
           callee = idx.find_func(r) if r else None
